@@ -512,3 +512,124 @@ pub fn c03_update_stream_frame() {
     std::mem::forget(codec);
     rforget(w);
 }
+
+// ---------------------------------------------------------------------------
+// C05.refuse / C08: opening peer-initiated streams against the advertised limit
+// ---------------------------------------------------------------------------
+/// `Recv::open` for every id / next-id / limit: refused streams create nothing and the
+/// next expected id still advances; ids must not go backwards; parity per role.
+pub fn c05_refuse_open() {
+    let c = cfg();
+    let is_server: bool = kani::any();
+    let role = if is_server { peer::Dyn::Server } else { peer::Dyn::Client };
+    let mut recv = Recv::new(role, &c);
+    let mut counts = Counts::new(role, &c);
+    let num: usize = kani::any();
+    let max: usize = kani::any();
+    counts_h::set_counts(&mut counts, 0, 10, num, max);
+    let next: u32 = kani::any();
+    kani::assume(next >= 1 && next <= 0x7fff_ffff && (next % 2 == 1) == is_server);
+    let overflowed: bool = kani::any();
+    set_ids(&mut recv, if overflowed { Err(StreamIdOverflow) } else { Ok(StreamId::from(next)) }, StreamId::ZERO, StreamId::MAX);
+    let idv: u32 = kani::any();
+    kani::assume(idv <= 0x7fff_ffff);
+    let id = StreamId::from(idv);
+    let push: bool = kani::any();
+    let r = recv.open(id, if push { Open::PushPromise } else { Open::Headers }, &mut counts);
+    let legal_initiator = idv != 0 && if is_server { !push && idv % 2 == 1 } else { push && idv % 2 == 0 };
+    match &r {
+        Ok(res) => {
+            assert!(legal_initiator, "C09.idle: stream opened by the wrong kind of frame / wrong id parity");
+            assert!(!overflowed && idv >= next, "C09.idle: stream id went backwards (or ids exhausted) but was accepted");
+            // the next expected id advanced past this one
+            match recv.next_stream_id {
+                Ok(n) => assert!(u32::from(n) == idv + 2),
+                Err(_) => assert!(idv as u64 + 2 > 0x7fff_ffff),
+            }
+            match res {
+                Some(got) => {
+                    assert!(*got == id && num < max, "C05: stream admitted beyond the advertised limit");
+                    assert!(refused(&recv).is_none());
+                }
+                None => {
+                    assert!(num >= max, "stream refused although a slot was free");
+                    assert!(refused(&recv) == Some(id), "refused stream not recorded for REFUSED_STREAM");
+                }
+            }
+            assert!(counts_h::get_counts(&counts) == (0, num), "open must not count the stream yet");
+        }
+        Err(e) => {
+            assert!(!legal_initiator || overflowed || idv < next, "legal new stream rejected");
+            assert!(matches!(e, Error::GoAway(_, Reason::PROTOCOL_ERROR, Initiator::Library)), "must be a connection error PROTOCOL_ERROR");
+            assert!(refused(&recv).is_none());
+        }
+    }
+    kani::cover!(matches!(&r, Ok(None)), "refused");
+    kani::cover!(matches!(&r, Ok(Some(_))), "admitted");
+    kani::cover!(true, "end");
+    std::mem::forget(r);
+    std::mem::forget(recv);
+    std::mem::forget(counts);
+}
+
+/// HEADERS that activate a peer-initiated stream: the server's request stream (just
+/// admitted by `open`, so a slot is free) and the client's *pushed* stream (reserved
+/// earlier: slots may have filled up in between).  No input may panic, and the number of
+/// active peer-initiated streams never exceeds the advertised limit.
+fn recv_headers_activation(pushed: bool) {
+    let c = cfg();
+    let role = if pushed { peer::Dyn::Client } else { peer::Dyn::Server };
+    let mut recv = Recv::new(role, &c);
+    recv.buffer = crate::proto::streams::buffer::verif_h::with_capacity(4);
+    let mut counts = Counts::new(role, &c);
+    let mut store = Store::new();
+    let idv: u32 = if pushed { 2 } else { 1 };
+    let id = StreamId::from(idv);
+    let mut stream = Stream::new(id, 0, 0);
+    stream.state = st_h::state_of_shape(if pushed { 2 } else { 0 }, id);
+    stream.ref_count = 1;
+    let key = store_h::insert_slab_only(&mut store, stream);
+    let num: usize = kani::any();
+    let max: usize = kani::any();
+    if !pushed {
+        // `Recv::open` ran in the same critical section and found a free slot
+        kani::assume(num < max);
+    }
+    counts_h::set_counts(&mut counts, 0, 10, num, max);
+    let eos: bool = kani::any();
+    let pseudo = if pushed {
+        frame::Pseudo::response(http::StatusCode::OK)
+    } else {
+        let mut p = frame::Pseudo::default();
+        p.method = Some(http::Method::GET);
+        p.scheme = Some(crate::hpack::BytesStr::from_static("https"));
+        p.path = Some(crate::hpack::BytesStr::from_static("/"));
+        p
+    };
+    let mut h = frame::Headers::new(id, pseudo, HeaderMap::new());
+    if eos {
+        h.set_end_stream();
+    }
+    let r = {
+        let mut p = store.resolve(key);
+        recv.recv_headers(h, &mut p, &mut counts)
+    };
+    let (_, nr) = counts_h::get_counts(&counts);
+    let p = store.resolve(key);
+    if r.is_ok() {
+        assert!(p.is_counted && nr == num + 1, "activated stream must be counted exactly once");
+        assert!(nr <= max, "C05: more active peer-initiated streams than advertised");
+        assert!(!p.pending_recv.is_empty(), "message head not queued for the application");
+        assert!(u32::from(recv.last_processed_id()) >= idv, "C15.lpid: last_processed_id below a stream handed to the application");
+        assert!(p.is_pending_accept == !pushed);
+    }
+    kani::cover!(r.is_ok(), "accepted");
+    kani::cover!(r.is_err(), "rejected");
+    kani::cover!(true, "end");
+    std::mem::forget(r);
+    std::mem::forget(store);
+    std::mem::forget(recv);
+    std::mem::forget(counts);
+}
+pub fn c05_recv_headers_request() { recv_headers_activation(false) }
+pub fn c05_recv_headers_pushed_response() { recv_headers_activation(true) }
